@@ -126,9 +126,11 @@ func DefaultKnobs(r *Rng, sequential bool) simrt.Config {
 	switch r.Intn(10) {
 	case 0, 1, 2:
 		cfg.Strategy = "uniform"
-	case 3, 4, 5, 6:
+	case 3, 4, 5:
 		cfg.Strategy = "sticky"
 		cfg.SwitchP = []float64{0.02, 0.1, 0.3, 0.5}[r.Intn(4)]
+	case 6, 7:
+		cfg.Strategy = "targeted"
 	default:
 		cfg.Strategy = "pct"
 		cfg.PCTDepth = 1 + r.Intn(3)
